@@ -216,7 +216,7 @@ impl Chk<'_> {
 fn queries_for<T: Flt>(rng: &mut Rng, x: &[T]) -> Vec<(QKind, Vec<usize>)> {
     let _ = x;
     let mut v = vec![
-        (QKind::S1, vec![1 + rng.below(4)]),
+        (QKind::S1, vec![if rng.chance(0.1) { *rng.pick(&[256usize, 1025, 4097]) } else { 1 + rng.below(4) }]),
         (QKind::S1, vec![0]),
         (QKind::S2, vec![2, 3]),
         (QKind::S3, vec![2, 1, 3]),
